@@ -359,6 +359,10 @@ func (g *Gen) SetField(v reflect.Value, f Field, depth int) {
 		for i := 0; i < ev.NumField(); i++ {
 			if rapid.Bool().Draw(g.T, "endpoint") {
 				var it ap.Item = g.ID("endpoint")
+				if rapid.IntRange(0, 3).Draw(g.T, "endpoint-embedded") == 0 {
+					// an endpoint may be written out in full instead of being referenced
+					it = &ap.OrderedCollection{ID: g.ID("endpoint"), Type: ap.OrderedCollectionType, TotalItems: 2}
+				}
 				ev.Field(i).Set(reflect.ValueOf(&it).Elem())
 				any = true
 			}
